@@ -40,6 +40,7 @@ func stamps(now time.Time, thr time.Duration, thorough bool) []tsv {
 	add := func(x *big.Int, k int64) *big.Int { return new(big.Int).Add(x, big.NewInt(k)) }
 	base := []tsv{
 		{"zero", time.Time{}},
+		{"zero-with-location", time.Time{}.In(time.FixedZone("x", 3600))},
 		off("now-300y", neg(new(big.Int).Mul(y, big.NewInt(300)))),
 		off("now-thr-1ns", add(neg(th), -1)),
 		off("now-thr", neg(th)),
@@ -186,7 +187,7 @@ func main() {
 	})
 	c.Set("exhaustive", !c.Capped())
 	c.Sample(map[string]interface{}{"now": nows[0].String(), "threshold": "1h", "LastConnected": "now-thr+1ns", "others": "zero", "expect": "error, wait=1ns"})
-	c.Sample(map[string]interface{}{"now": nows[0].String(), "threshold": "1h", "BecameValidator": fmt.Sprint(stamps(nows[0], time.Hour, false)[9].t), "expect": "error, wait=MaxInt64"})
+	c.Sample(map[string]interface{}{"now": nows[0].String(), "threshold": "1h", "BecameValidator": fmt.Sprint(stamps(nows[0], time.Hour, false)[10].t), "expect": "error, wait=MaxInt64"})
 	c.Assume("timestamps carry no monotonic clock reading (constructed with time.Unix)")
 	c.Finish()
 }
